@@ -935,3 +935,31 @@ Proof.
   intros start size m Hsize. eexists. split; [reflexivity|].
   unfold vlen, gen_len, new_view, gen_init_end, gen_filelike_end. cbn. repeat split; lia.
 Qed.
+
+(* ------------------------------------------------------------------------------------------ *)
+(* what still answers on a dead view (the clause "every operation fails" is false for these)    *)
+(* ------------------------------------------------------------------------------------------ *)
+Lemma unguarded_answer_when_dead : forall st i v,
+  nth_error (st_views st) i = Some v -> dead (st_freed st) v = true ->
+  step st (OView i Len) = (st, ok (VInt (vlen v)))
+  /\ step st (OView i Enter) = (st, ok VNone)
+  /\ (v_closed v = true ->
+        step st (OView i Close) = (st, ok VNone) /\ step st (OView i Exit) = (st, ok VNone)).
+Proof.
+  intros st i v Hnth Hd.
+  assert (Hsame : forall r, (mkState (set_nth i v (st_views st) ++ opt_list None) (st_freed st)
+                                     (apply_calls (st_mem st) (o_calls (ok r))), ok r) = (st, ok r)).
+  { intros r. cbn [opt_list o_calls ok apply_calls fold_left].
+    rewrite app_nil_r, (set_nth_same _ _ _ _ Hnth). destruct st; reflexivity. }
+  unfold step, step_with. rewrite Hnth. cbn [vstep]. unfold close_step.
+  split; [apply Hsame|]. split; [apply Hsame|].
+  intros Hc. rewrite Hc. split; apply Hsame.
+Qed.
+
+(* the hypotheses are met: after close() of a fresh MemoryIO of 10 bytes, len() is 10 and close() is None *)
+Lemma unguarded_answer_example : forall m,
+  let st := run (init 100 110 m) [OView 0 Close] in
+  (exists v, nth_error (st_views st) 0 = Some v /\ dead (st_freed st) v = true /\ v_closed v = true)
+  /\ snd (step st (OView 0 Len)) = ok (VInt 10) /\ snd (step st (OView 0 Close)) = ok VNone
+  /\ snd (step st (OView 0 (Read 1))) = err 0.
+Proof. intros m. cbv zeta. split; [eexists; repeat split|]. repeat split. Qed.
